@@ -516,8 +516,9 @@ class Check:
 
     def finish(self):
         known = load_known_findings().get(self.prop, {})
-        os.makedirs(os.path.join(VERIF, "evidence"), exist_ok=True)
-        rep_dir = os.path.join(VERIF, "reports", self.prop)
+        out_root = os.environ.get("VERIF_OUT") or VERIF       # VERIF_OUT: used by the self-test runner only
+        os.makedirs(os.path.join(out_root, "evidence"), exist_ok=True)
+        rep_dir = os.path.join(out_root, "reports", self.prop)
         if os.path.isdir(rep_dir):
             shutil.rmtree(rep_dir)
         violations = []
@@ -575,7 +576,7 @@ class Check:
         ev = dict(property_id=self.prop, tier=self.tier, seed=self.seed, level=self.level, coverage=cov,
                   assumptions=self.assumptions, wall_s=round(time.time() - self.t0, 2),
                   violations=len(violations))
-        with open(os.path.join(VERIF, "evidence", self.prop + ".json"), "w") as fh:
+        with open(os.path.join(out_root, "evidence", self.prop + ".json"), "w") as fh:
             json.dump(ev, fh, indent=1, default=str)
         for l in lines:
             print(l)
